@@ -165,20 +165,27 @@ pub fn finalize(
             }
         }
     }
-    if let Some(stdin) = fi_in.take() {
-        drop(stdin);
-    }
-
-    // Handle process termination and propagate errors
+    // Handle process termination and propagate errors.
+    // The exporter's output has been read to its end, so it is about to exit. Learn how it ended
+    // before the importer is handed the rest of the stream: the terminating `done` may still sit
+    // in our write buffer, and an importer that has read it completes the import and moves refs.
     if import_broken {
         let _ = fe.kill();
     }
     let fe_status = fe.wait()?;
     if !fe_status.success() {
+        if let Some(child) = fi {
+            // The history the exporter wrote cannot be trusted: the importer must not finish.
+            let _ = child.kill();
+            let _ = child.wait();
+        }
         return Err(FilterRepoError::Io(io::Error::other(format!(
             "fast-export failed: {}",
             fe_status
         ))));
+    }
+    if let Some(stdin) = fi_in.take() {
+        drop(stdin);
     }
     if let Some(child) = fi {
         let fi_status = child.wait()?;
